@@ -336,10 +336,23 @@ _SNAP: Dict[str, Tuple[str, Any]] = {}          # import-only inventory object -
 _RESTORED: Dict[str, Tuple[str, str]] = {}      # what `restore_import_only` found mutated (reported as import-only-global-mutated)
 
 
+_SNAP_RT: Dict[str, Any] = {}                 # run-time written module-level / class-level CONTAINERS -> deep copy at import
+
+
 def snapshot_import_only_objects(inv) -> None:
     """taken once, before any environment exists in this process (and inherited by the forked workers)"""
     for name, e in inv.entries.items():
-        if e["writers"] or e["kind"] == "module-logger":
+        if e["kind"] == "module-logger" or name.endswith(MEMO_SUFFIX):
+            continue
+        if e["writers"]:
+            # a container that operations write (a registry of loggers, a hand-written cache behind a helper): a new interpreter has it
+            # as the import left it, so the normalisation puts it back (not a violation by itself: it is classified as written)
+            try:
+                obj = _resolve(name)
+                if isinstance(obj, (dict, list, set)):
+                    _SNAP_RT[name] = copy.deepcopy(obj)
+            except Exception:
+                pass
             continue
         try:
             obj = _resolve(name)
@@ -357,6 +370,17 @@ def restore_import_only() -> None:
     """Hook of `normalise_process_state`: an import-only object that an earlier run of this process MUTATED (that is a violation by itself and
     is recorded as such) is put back IN PLACE to its import-time content, so that both runs of the next differential start from what a new
     interpreter has and the mutation also shows as a behavioural difference instead of hiding in both runs."""
+    for name, cp in _SNAP_RT.items():
+        try:
+            obj = _resolve(name)
+            if obj != cp:
+                if isinstance(obj, list):
+                    obj[:] = copy.deepcopy(cp)
+                else:
+                    obj.clear()
+                    obj.update(copy.deepcopy(cp))
+        except Exception:
+            pass
     for name, (fp, cp) in _SNAP.items():
         try:
             obj = _resolve(name)
